@@ -292,6 +292,12 @@ def run(pid, tier):
     results, reports = fam.execute(binary, scs)
     # liveness stand-ins are re-executed: a one-off stall on a loaded machine is not evidence
     confirm_liveness(fam, binary, results)
+    # Layer 2 conformance: are the recorded traces behaviours of the implementation-shaped model?
+    # A trace the model rejects is DRIFT (the exhaustive result below no longer transfers to this code),
+    # never a verdict.  Quick: the first 10 workload groups; thorough: everything eligible.
+    l2_ok, drift, l2_states = rf.l2_validate(scs, results, max_groups=10 if tier == "quick" else 400, timeout=900)
+    for sid, at, ev in drift[:5]:
+        print("DRIFT property=%s trace=%s event=%d %s" % (pid, sid, at, json.dumps({k: ev[k] for k in ("e", "p", "g", "o", "fs", "tag") if ev and k in ev})))
     # Layer 2: exhaustive check of the implementation-shaped model for the property's invariants
     mstates = mtrans = 0
     minst = []
@@ -309,10 +315,11 @@ def run(pid, tier):
         mtrans += r.generated
     rc = fam.verd.finish()
     cov = {
-        "states": mstates + fam.stats["trace_states"],
-        "transitions": mtrans + fam.stats["trace_states"],
+        "states": mstates + fam.stats["trace_states"] + l2_states,
+        "transitions": mtrans + fam.stats["trace_states"] + l2_states,
         "traces_validated_against_impl": fam.stats["traces_validated"],
         "model_states": mstates, "model_instances": minst, "trace_states": fam.stats["trace_states"],
+        "layer2_traces_accepted_by_model": l2_ok, "layer2_drift": [{"trace": d[0], "event": d[1]} for d in drift], "layer2_trace_states": l2_states,
         "scenarios_executed": fam.stats["scenarios"], "distinct_fault_traces": len(fam.distinct),
         "evaluations": fam.stats["scenarios"], "distinct_nontrivial": len(fam.distinct),
         "rule": "scenario = workload x submit timing x fault plan x dial/CONNACK plan from spec/Plans.tla (fixed core + VERIF_SEED sample + regression corpus); "
@@ -323,8 +330,8 @@ def run(pid, tier):
         "exhaustive": False,
     }
     vlib.write_evidence(pid, tier, "model_checking", cov, time.time() - t0, rf.ASSUMPTIONS, violations=len(fam.verd.violations))
-    print("%s %s: %d scenarios on the real client, %d traces validated by TLC (MqttEnv), %d distinct faulty traces; model: %d distinct states in %d instances; %.0fs"
-          % (pid, TITLES[pid], fam.stats["scenarios"], fam.stats["traces_validated"], len(fam.distinct), mstates, len(minst), time.time() - t0))
+    print("%s %s: %d scenarios on the real client, %d traces validated by TLC (MqttEnv), %d distinct faulty traces; Layer 2: %d traces accepted by MqttRetry, %d drift; model: %d distinct states in %d instances; %.0fs"
+          % (pid, TITLES[pid], fam.stats["scenarios"], fam.stats["traces_validated"], len(fam.distinct), l2_ok, len(drift), mstates, len(minst), time.time() - t0))
     return rc
 
 
